@@ -26,7 +26,50 @@ fn expected_type(t: &TypeExpr, base: &str, drop_outer_option: bool) -> String {
     s
 }
 
+/// The type as a string, with `Option` / `Vec` / `Box` reduced to their bare names however the
+/// generator spells them (`Option<T>`, `::std::option::Option<T>`, `core::option::Option<T>`, ...):
+/// the property is about the nesting, not about the spelling of the path.
 fn norm_ty(ty: &syn::Type) -> String {
+    fn args(a: &syn::PathArguments) -> String {
+        match a {
+            syn::PathArguments::AngleBracketed(ab) => {
+                let inner: Vec<String> = ab
+                    .args
+                    .iter()
+                    .map(|g| match g {
+                        syn::GenericArgument::Type(t) => norm_ty(t),
+                        other => other.to_token_stream().to_string().replace(' ', ""),
+                    })
+                    .collect();
+                format!("<{}>", inner.join(","))
+            }
+            syn::PathArguments::None => String::new(),
+            other => other.to_token_stream().to_string().replace(' ', ""),
+        }
+    }
+    if let syn::Type::Path(p) = ty {
+        if p.qself.is_none() {
+            let segs: Vec<String> = p.path.segments.iter().map(|s| s.ident.to_string()).collect();
+            let last = p.path.segments.last().unwrap();
+            let prefix: Vec<&str> = segs[..segs.len() - 1].iter().map(|s| s.as_str()).collect();
+            let std_spelling = match (last.ident.to_string().as_str(), prefix.as_slice()) {
+                ("Option", []) | ("Option", ["std" | "core", "option"]) => true,
+                ("Vec", []) | ("Vec", ["std" | "alloc", "vec"]) => true,
+                ("Box", []) | ("Box", ["std" | "alloc", "boxed"]) => true,
+                _ => false,
+            };
+            if std_spelling && p.path.segments.iter().rev().skip(1).all(|s| s.arguments.is_none()) {
+                return format!("{}{}", last.ident, args(&last.arguments));
+            }
+            let mut out = String::new();
+            if p.path.leading_colon.is_some() {
+                out.push_str("::");
+            }
+            let parts: Vec<String> = p.path.segments.iter().map(|s| format!("{}{}", s.ident, args(&s.arguments))).collect();
+            out.push_str(&parts.join("::"));
+            return out;
+        }
+    }
     ty.to_token_stream().to_string().replace(' ', "")
 }
 
